@@ -22,6 +22,20 @@ RULE = ("vec.* cases: (a) for every length 0..8 (rationals) one history containi
         "norm_inf of u, v, u+v, c*u; kind vec.cnormlaws) and one Rat case (dot and norm_1 of the same four vectors, exact; kind vec.n1laws), "
         "plus structured complex vectors (maximum modulus at the first / last / middle entry, ties of equal modulus, zero vectors, "
         "unimodular and zero scalars) and a mismatched-size case of each; "
+        "(f) special structure (package specB): SEARCH-ONLY histories (executor vs the plain list model, no model term) over extended executor ops -- "
+        "== and != against an equal copy / a proper prefix / a one-longer extension / a copy differing in the first or last entry / the empty vector / itself, "
+        "both operands the same object (v.dot(&v), &v + &v, &v - &v), the public field .vec read directly, sort_by with a descending and a "
+        "by-absolute-value comparator, Clone::clone_from into a longer / shorter / equal / empty target, and the element-type specific views "
+        "(f64: norm_1/2/p/inf, f64 * v; complex: conj/real/abs/norm_inf) of the CURRENT vector of a history: family edit-pairs-<elt> = for lengths "
+        "0,1,2,3,5 every editing operation class (28: push, push_front, insert at 0 / middle / end, pop, swap of the ends, resize shrink / grow / same / 0, "
+        "assign, clear, the three sorts, set first / last, the assignment operators, clone_from longer / shorter / same, clone) as FIRST and as SECOND "
+        "edit of a pair (one rotation of the 28 x 28 table per seed, all rotations and lengths 4, 8 in the thorough tier), the vector brought back to its "
+        "start alternately by clear + push (spare capacity) and clone_from, each pair followed by EVERY view (~45 operations, arguments 0 / 1 / -1 / 2 / 1/2, "
+        "complex +-i and 0.6+0.8i, ties); family history-x-<elt> = 60 random histories with the extended ops mixed in; and model-tied families "
+        "linspace-/powspace-structured (a = b, a > b, a = -b, an end at 0, n = 2, 3, ...; exponent 1, 2, 1/2, 3), norms-structured (zero, -0.0, constant, "
+        "constant negative, alternating +-c, one non-zero entry first / last, negative maximum first / last; lengths 1, 2, 3, 8), norm-laws-structured "
+        "(v = u, v = -u, v = 0; c = 0, 1, -1, 2, 1/2), complex-structured (entries on the axes, unit modulus, equal moduli), sort-ord-structured (sorted, "
+        "reversed, constant, two values; lengths 0, 1, 2), f64-times-vector-structured, constructors-structured; "
         "distinct = distinct executor line; non-trivial = non-empty vector or an operation that must panic")
 TRUSTED = ["Coq 8.16.1 kernel + vm_compute (primitive floats: bit-exact IEEE binary64)", "Flocq 4 (IEEE754.PrimFloat, BinarySingleNaN) and Coq's FloatAxioms for the two *_exact_float theorems", "Rust executor /verif/harness (kinds vec.*; Rat = i128 rationals)",
            "python driver: generators, plain-list reference model, mpmath norm reference, stream comparators",
@@ -60,7 +74,9 @@ MANIFEST = dict(
           "relative error gam 3 / gam (n+3) of the complex norms in the standard model with a rounded square root. Tie: the same definitions run by vm_compute "
           "against the implementation (Rat vs Qc exactly; f64/Complex bit-compared, libm-dependent norm_p/powspace by tolerance) "
           "on every length 0..64, every index range of the slice reductions for lengths <= 8 and random histories; a plain python "
-          "list model and mpmath norms search for failing inputs."),
+          "list model and mpmath norms search for failing inputs.  Search only (no model term): ==/!= on unequal vectors, same-object operands, "
+          "sort_by with non-ascending comparators, Clone::clone_from, the public field, and the f64 / complex views after every pair of editing "
+          "operation classes (families edit-pairs-*, history-x-*)."),
     note=("Norm laws are proved over R, not over f64 (rounding, overflow/underflow of the naive norm_2 are outside the theorems); "
           "norm_p/powspace go through libm and are tied by tolerance; Minkowski for general p is searched only. The search draws entries of "
           "magnitude 1e-3..1e3: for entries beyond ~1e154 (below ~1e-162) the unscaled norm_2/norm_p overflow (underflow) and the laws fail "
@@ -100,9 +116,12 @@ def small(rng, elt, n):
     return [complex(rng.choice([-1.0, 1.0, 0.5, 0.0]), rng.choice([-1.0, 1.0, 0.5, 2.0])) for _ in range(n)]
 
 TOL = 1e-12
+SPECB_FORMS = True        # the search-only families edit-pairs-* / history-x-* (extended executor ops of veclib.XOPS)
 
 def hist(elt, v0, ops, family, nontrivial=True):
-    return Case(elt, vhist_line(elt, v0, ops), vhist_term(elt, v0, ops), meta={"kind": "hist", "v0": v0, "ops": ops},
+    # a history with an extended op (veclib.XOPS: operator forms / trait impls the model has no constructor for) is search-only
+    term = None if is_extended(ops) else vhist_term(elt, v0, ops)
+    return Case(elt, vhist_line(elt, v0, ops), term, meta={"kind": "hist", "v0": v0, "ops": ops},
                 family=family, nontrivial=nontrivial, tol=TOL, check_class=True)
 
 # ------------------------------------------------------------------ libm pow as a table
@@ -275,6 +294,206 @@ def resolve_elem(elt, v0, ops, g=None):
         except (OverflowError, ZeroDivisionError): v = snap
     return out, v
 
+# ------------------------------------------------------------------ (specB) special structure: forms, trait impls, pairs of edits x views
+SPECIAL = {'rat': [Fraction(0), Fraction(1), Fraction(-1), Fraction(2), Fraction(1, 2)],
+           'f64': [0.0, 1.0, -1.0, 2.0, 0.5],
+           'cplx': [0j, 1 + 0j, -1 + 0j, 1j, -1j, complex(0.6, 0.8), complex(2, 0), complex(0, 0.5)]}
+ABSENT = {'rat': Fraction(999, 7), 'f64': 12345.5, 'cplx': complex(12345.5, 1.0)}
+
+def sval(g, elt):
+    """scalar / entry classes 0, 1, -1, 2, 1/2 (complex: +-i, unit modulus off the axes, axis-aligned), else the general menu"""
+    return g.choice(SPECIAL[elt]) if g.chance(2, 3) else val(g, elt)
+
+def snz(g, elt):
+    x = sval(g, elt)
+    return x if x != 0 else SPECIAL[elt][1 + g.below(4)]
+
+def svec(g, elt, n):
+    """small entries drawn from the special classes and the small menu, duplicates (ties) likely"""
+    pool = SPECIAL[elt] + small(g, elt, 3)
+    return [g.choice(pool) for _ in range(n)]
+
+# the editing operations as classes of (operation, argument position / size relative to the current vector)
+EDITS = ["none", "push", "push_front", "insert_0", "insert_end", "insert_mid", "pop", "swap_ends", "resize_shrink", "resize_grow",
+         "resize_same", "resize_0", "assign", "clear", "sort", "sort_desc", "sort_absdesc", "set_first", "set_last",
+         "add_assign", "sub_assign", "add_assign_s", "mul_assign_s", "div_assign_s", "clone_from_longer", "clone_from_shorter",
+         "clone_from_same", "clone_mut"]
+NOT_CPLX = {"resize_shrink", "resize_grow", "resize_same", "resize_0", "sort", "sort_desc", "sort_absdesc"}
+
+def edit_op(g, elt, name, cur):
+    n = len(cur)
+    if name == "none": return None
+    if name in ("push", "push_front", "assign", "clone_mut", "add_assign_s"): return (name, sval(g, elt))
+    if name == "insert_0": return ("insert", 0, sval(g, elt))
+    if name == "insert_end": return ("insert", n, sval(g, elt))
+    if name == "insert_mid": return ("insert", n // 2, sval(g, elt))
+    if name in ("pop", "clear", "sort", "sort_desc", "sort_absdesc"): return (name,)
+    if name == "swap_ends": return ("swap", 0, max(n - 1, 0))
+    if name == "resize_shrink": return ("resize", n // 2)
+    if name == "resize_grow": return ("resize", n + 2)
+    if name == "resize_same": return ("resize", n)
+    if name == "resize_0": return ("resize", 0)
+    if name == "set_first": return ("set", 0, sval(g, elt))
+    if name == "set_last": return ("set", max(n - 1, 0), sval(g, elt))
+    if name in ("add_assign", "sub_assign"): return (name, svec(g, elt, n))
+    if name in ("mul_assign_s", "div_assign_s"): return (name, snz(g, elt) if name[0] == 'd' else sval(g, elt))
+    if name == "clone_from_longer": return ("clone_from", svec(g, elt, n + 2))
+    if name == "clone_from_shorter": return ("clone_from", svec(g, elt, n // 2))
+    if name == "clone_from_same": return ("clone_from", svec(g, elt, n))
+    raise ValueError(name)
+
+def views(g, elt, cur):
+    """every value-returning operation and operator form on the CURRENT vector, arguments derived from its contents"""
+    n = len(cur)
+    ops = [("size",), ("field",), ("get", 0), ("get", max(n - 1, 0)), ("get", n), ("sum",), ("product",), ("norm_1",), ("abs",), ("neg",),
+           ("dot_self",), ("add_self",), ("sub_self",), ("cmp_self",), ("cmp", list(cur)), ("cmp", list(cur[:-1])),
+           ("cmp", list(cur) + [sval(g, elt)]), ("cmp", svec(g, elt, n)), ("cmp", []),
+           ("find", ABSENT[elt]), ("scale", sval(g, elt)), ("div", snz(g, elt)),
+           ("dot", list(reversed(cur))), ("add", list(cur)), ("sub", list(cur)), ("dot", svec(g, elt, n)),
+           ("clone_into", svec(g, elt, n + 2)), ("clone_into", svec(g, elt, n // 2)), ("clone_into", [])]
+    if n > 0:
+        first_changed = [cur[0] + SPECIAL[elt][1]] + list(cur[1:]); last_changed = list(cur[:-1]) + [cur[-1] + SPECIAL[elt][1]]
+        ops += [("cmp", first_changed), ("cmp", last_changed), ("find", cur[0]), ("find", cur[-1]), ("find", cur[n // 2]),
+                ("sum_slice", 0, n - 1), ("sum_slice", 0, 0), ("sum_slice", n - 1, n - 1), ("product_slice", 0, 0),
+                ("product_slice", n - 1, n - 1), ("product_slice", 0, n - 1), ("sum_slice", n - 1, n), ("sum_slice", n // 2, n // 2)]
+    if elt == 'f64': ops += [("norms", g.choice([1.0, 2.0, 3.0, 1.5])), ("scale_l", sval(g, 'f64'))]
+    if elt == 'cplx': ops += [("cxview",)]
+    return ops
+
+def pairs_history(g, elt, v0, pairs):
+    """for every (first edit, second edit) of `pairs`: bring the vector back to v0 (alternately by clear + push, which leaves
+    spare capacity behind, and by clone_from), apply the two edits, then every view.  Returns the op list."""
+    ops = []; cur = list(v0)
+    def do(op):
+        nonlocal cur
+        if op is None: return
+        ops.append(op); snap = list(cur)
+        try: ref_vstep(elt, cur, op)
+        except RefPanic: cur = snap
+    for k, (e1, e2) in enumerate(pairs):
+        if k > 0:
+            if k % 2 == 1:
+                do(("clear",))
+                for x in v0: do(("push", x))
+            else:
+                do(("clone_from", list(v0)))
+        do(edit_op(g, elt, e1, cur)); do(edit_op(g, elt, e2, cur))
+        for o in views(g, elt, cur): do(o)
+    return ops
+
+def forms_cases(rng, tier):
+    """family edit-pairs-<elt>: search-only histories (executor + plain list model)"""
+    out = []
+    thorough = tier == "thorough"
+    g = rng.fork("edit-pairs")
+    for elt in ('rat', 'f64', 'cplx'):
+        E = [e for e in EDITS if not (elt == 'cplx' and e in NOT_CPLX)]
+        L = len(E)
+        rots = list(range(L)) if thorough else [g.below(L)]
+        for n in ((0, 1, 2, 3, 4, 5, 8) if thorough else (0, 1, 2, 3, 5)):
+            for r in rots:
+                pairs = [(E[i], E[(i + r + n) % L]) for i in range(L)]
+                for c in range(0, L, 10):
+                    v0 = svec(g, elt, n)
+                    out.append(hist(elt, v0, pairs_history(g, elt, v0, pairs[c:c + 10]), "edit-pairs-" + elt))
+    return out
+
+def xrand_vop(g, elt, cur):
+    """a random extended op (arguments related to the current contents half of the time)"""
+    n = len(cur)
+    name = g.choice(["cmp", "cmp", "cmp_self", "dot_self", "add_self", "sub_self", "field", "clone_into", "clone_from", "cmp"] +
+                    (["sort_desc", "sort_absdesc"] if elt != 'cplx' else ["cxview", "cxview"]) + (["norms", "scale_l"] if elt == 'f64' else []))
+    if name == "cmp":
+        k = g.below(5)
+        if k == 0: return (name, list(cur))
+        if k == 1: return (name, list(cur[:-1]))
+        if k == 2: return (name, list(cur) + [val(g, elt)])
+        if k == 3 and n > 0:
+            w = list(cur); i = g.choice([0, n - 1, g.below(n)]); w[i] = w[i] + SPECIAL[elt][1]; return (name, w)
+        return (name, rvec(g, elt, g.range(0, n + 1)))
+    if name in ("clone_into", "clone_from"): return (name, rvec(g, elt, g.choice([0, n // 2, n, n + 1, n + 3])))
+    if name == "norms": return (name, g.choice([1.0, 2.0, 3.0, 8.0, 1.5, 1.0 + 7.0 * g.unit()]))
+    if name == "scale_l": return (name, sval(g, 'f64'))
+    return (name,)
+
+def xhistory_cases(rng, tier):
+    """family history-x-<elt>: the random edit histories of (c) with extended ops mixed in (search-only)"""
+    out = []
+    g = rng.fork("hist-x")
+    for h in range(600 if tier == "thorough" else 60):
+        elt = ('rat', 'f64', 'cplx')[h % 3]
+        v0 = rvec(g, elt, g.range(0, 6)) if g.chance(1, 2) else svec(g, elt, g.range(0, 6))
+        ops = []; v = list(v0)
+        for _ in range(g.range(5, 60)):
+            o = xrand_vop(g, elt, v) if g.chance(1, 3) else rand_vop(g, elt, len(v))
+            if o[0] == "find" and o[1] == "ELEM": o = ("find", v[len(v) // 2] if v else _zero(elt))
+            ops.append(o)
+            snap = list(v)
+            try: ref_vstep(elt, v, o)
+            except RefPanic: v = snap
+            except (OverflowError, ZeroDivisionError): v = snap
+            if len(v) > 64: break
+            if elt != 'rat' and any((x != x) or abs(x) > 1e100 for x in v): break
+        out.append(hist(elt, v0, ops, "history-x-" + elt))
+    return out
+
+def structured_f64_cases(rng, tier):
+    """families *-structured: the f64-only / complex-only kinds on special structure (model-tied like their random twins)"""
+    out = []
+    thorough = tier == "thorough"
+    g = rng.fork("structured")
+    pick = (lambda xs: list(xs)) if thorough else (lambda xs: [g.choice(list(xs))])
+    # spacings: a == b, decreasing, symmetric a = -b, an end at 0, unit interval; n = 2 (only the ends), 3, small, 64
+    ends = [(0.0, 1.0), (1.0, 0.0), (-1.0, 1.0), (1.0, -1.0), (0.0, 0.0), (2.5, 2.5), (-3.0, -3.0), (0.0, -2.0), (-0.75, 0.0),
+            (3.0, -3.0), (-0.1, 0.1), (1.0, 1.0 + 2.0 ** -20), (-6.0, -2.0), (5.0, 0.5)]
+    for (a, b) in ends:
+        for n in pick([2, 3, 4, 5, 9, 17, 64]):
+            out.append(linspace_case(a, b, n, "linspace-structured"))
+        for n in pick([2, 3, 4, 5, 9, 17]):
+            for p in pick([1.0, 2.0, 0.5, 3.0]):
+                out.append(powspace_case(a, b, n, p, "powspace-structured"))
+    for n in (2, 3):                                 # n = 2 with general ends: the sequence is exactly [a, b]
+        a, b = val(g, 'f64'), val(g, 'f64')
+        out.append(linspace_case(a, b, n, "linspace-structured"))
+        out.append(powspace_case(a, b, n, g.choice([1.0, 2.0, 0.5]), "powspace-structured"))
+    # norms: zero vectors, all entries equal, +-c alternating, one non-zero entry first / last, the maximum tied with opposite signs,
+    # a negative maximum first / last, -0.0 entries
+    def shapes(n, c):
+        e_first = [c] + [0.0] * (n - 1); e_last = [0.0] * (n - 1) + [c]
+        tie = [(-c if i % 2 else c) for i in range(n)]
+        negmax_first = [-4.0 * abs(c)] + [abs(c)] * (n - 1); negmax_last = [abs(c)] * (n - 1) + [-4.0 * abs(c)]
+        return [[0.0] * n, [-0.0] * n, [c] * n, [-abs(c)] * n, tie, e_first, e_last, negmax_first, negmax_last]
+    for n in (1, 2, 3, 8):
+        for c in pick([1.0, -1.0, 2.0, 0.5, 3.0]):
+            for v in shapes(n, c):
+                for p in pick([1.0, 2.0, 3.0, 1.5]):
+                    out.append(norms_case(v, p, "norms-structured"))
+    # norm laws on related operands: v = u (same data), v = -u (u + v = 0), v = 0, c in {0, 1, -1, 2, 1/2}
+    for n in pick([1, 2, 5]):
+        u = svec(g, 'f64', n)
+        for v in ([x for x in u], [-x for x in u], [0.0] * n):
+            for c in pick([0.0, 1.0, -1.0, 2.0, 0.5]):
+                out.append(normlaws_case(u, v, c, g.choice([1.0, 2.0, 3.0]), "norm-laws-structured"))
+    # f64 * vector with the scalar classes, vectors with zeros of both signs
+    for sc in pick([0.0, -0.0, 1.0, -1.0, 2.0, 0.5]):
+        out.append(scale_l_case(sc, [0.0, -0.0] + svec(g, 'f64', g.range(0, 4)), "f64-times-vector-structured"))
+    # conj / real / abs / norm_inf: entries on the axes +-k, +-ki, unit modulus off the axes, equal moduli, zero vector, length 1
+    axis = [complex(3, 0), complex(-3, 0), complex(0, 3), complex(0, -3), complex(0.6, 0.8), complex(-0.8, 0.6), complex(1.8, -2.4), 0j]
+    for n in pick([1, 2, 4, 8]):
+        out.append(cx_case([axis[(i + n) % 8] for i in range(n)], "complex-structured"))
+        out.append(cx_case([g.choice(SPECIAL['cplx']) for _ in range(n)], "complex-structured"))
+        out.append(cx_case([0j] * n, "complex-structured"))
+    # Vector<i64>::sort(): sorted already, reversed, all equal, two values, lengths 0 / 1 / 2
+    for n in pick([0, 1, 2, 3, 7, 16]):
+        base = [g.range(-5, 5) for _ in range(n)]
+        for xs in pick([sorted(base), sorted(base, reverse=True), [3] * n, [(-1) ** i for i in range(n)], base]):
+            out.append(sort_ord_case(xs, "sort-ord-structured"))
+    # constructors at the degenerate sizes with the scalar classes
+    for elt in ('rat', 'f64', 'cplx'):
+        for n in pick([0, 1]):
+            out.append(ctor_case(elt, n, g.choice(SPECIAL[elt]), svec(g, elt, g.choice([0, 1, 2])), "constructors-structured"))
+    return out
+
 def generate(rng, tier):
     cases = []
     thorough = tier == "thorough"
@@ -383,6 +602,11 @@ def generate(rng, tier):
             if len(v) > 64: break
             if elt != 'rat' and any((x != x) or abs(x) > 1e100 for x in v): break   # keep the float histories finite
         cases.append(hist(elt, v0, ops, "history-" + elt))
+    # (f) special structure (package specB): scalar / entry classes, shapes, operator forms, trait impls, pairs of edits x every view
+    if SPECB_FORMS:
+        cases += forms_cases(rng, tier)
+        cases += xhistory_cases(rng, tier)
+    cases += structured_f64_cases(rng, tier)
     # spread the expensive (float-printing) cases evenly over the coqc shards: deterministic stride permutation
     n = len(cases); step = 37
     while math.gcd(step, n) != 1: step += 1
@@ -426,9 +650,10 @@ def case_from_json(j):
     ops = []
     for o in m["ops"]:
         out = [o[0]]
-        for k, a in zip(VOPS[o[0]][1], o[1:]):
+        for k, a in zip(op_kinds(o[0]), o[1:]):
             if k == 'n': out.append(int(a))
             elif k == 's': out.append(_conv(elt, a))
+            elif k == 'f': out.append(_conv('f64', a))
             else: out.append([_conv(elt, x) for x in a])
         ops.append(tuple(out))
     return hist(elt, v0, ops, "corpus")
